@@ -630,7 +630,7 @@ func r075(c *Ctx, r *R) {
 	// saving the configuration writes "*" only for trust-all
 	if tj := c.fn(r, "consensus/crdt", "Config.toJSONConfig"); tj != nil {
 		n := 0
-		instrs(tj, func(i ssa.Instruction) {
+		instrsDeep(tj, func(i ssa.Instruction) { // (or a helper that renders the trust settings)
 			st, ok := i.(*ssa.Store)
 			if !ok {
 				return
